@@ -438,22 +438,30 @@ def expected_child(ev, sid):
                 report = loops[0]
     futs = [[ev[i][2], G.Tag("pending")] for i in regs if ev[i][0] == "wait"]
     widx = [i for i in regs if ev[i][0] == "wait"]
+
+    def settle(i, rc):
+        e = ev[i]
+        if e[0] == "wait":
+            k = widx.index(i)
+            futs[k] = [e[2], G.Tag("CalledProcessError"), rc] if (rc != 0 and e[3]) else [e[2], G.Tag("result"), rc]
     calls, rc = [], None
     if report is None:
         has_cb = bool(regs)
     else:
-        has_cb = any(i > report for i in regs)
         rc = py_decode(st)
         if rc is None:
             calls = [[sid, G.Tag("assert")]]
             has_cb = bool(regs)
         else:
+            has_cb = False
             last = max(i for i in regs if i < report)
-            e = ev[last]
-            calls = [[sid, G.Tag("call"), e[2], rc]]
-            if e[0] == "wait":
-                k = widx.index(last)
-                futs[k] = [e[2], G.Tag("CalledProcessError"), rc] if (rc != 0 and e[3]) else [e[2], G.Tag("result"), rc]
+            calls = [[sid, G.Tag("call"), ev[last][2], rc]]
+            settle(last, rc)
+            # registrations made after the report: callback(returncode) is queued and runs at the next loop turn
+            for i in regs:
+                if i > report and any(e[0] == "loop" and k > i for k, e in enumerate(ev)):
+                    calls.append([sid, G.Tag("call"), ev[i][2], rc])
+                    settle(i, rc)
     return calls, rc, has_cb, futs
 
 
@@ -512,14 +520,19 @@ def corpus_cases():
     c.append(mk([["spawn", 5], ["wait", 0, 0, False], ["exit", 5, 3 * 256], ["chld"], ["loop"]]))
     # two children, one coalesced SIGCHLD
     c.append(mk([["spawn", 5], ["spawn", 6], ["reg", 0, 0], ["wait", 1, 1, True], ["exit", 6, 15], ["exit", 5, 256], ["chld"], ["loop"]]))
-    # re-registration after the exit was reported: the second callback never runs, _waiting keeps a stale entry
+    # registration after the exit was reported (used to hang for ever before fix 830934b): fires at the next loop turn
     c.append(mk([["spawn", 5], ["wait", 0, 0, False], ["exit", 5, 0], ["chld"], ["loop"], ["wait", 0, 1, True], ["chld"], ["loop"]]))
     # re-registration between reaping and the loop turn: only the later callback runs
     c.append(mk([["spawn", 5], ["reg", 0, 0], ["exit", 5, 512], ["chld"], ["reg", 0, 1], ["loop"]]))
     # stopped-shaped status: assertion inside the IOLoop callback
     c.append(mk([["spawn", 5], ["reg", 0, 0], ["exit", 5, 0x137F], ["chld"], ["loop"]]))
-    # pid reuse through a stale _waiting entry (outside the rely condition)
+    # the old reproduction of the pid-reuse hazard (late registration used to leave a stale _waiting entry; no longer)
     c.append(mk([["spawn", 5], ["reg", 0, 0], ["exit", 5, 0], ["chld"], ["loop"], ["reg", 0, 1], ["spawn", 5], ["exit", 5, 256], ["chld"], ["loop"], ["reg", 1, 2], ["loop"]]))
+    # a stale _waiting entry still arises from re-registration between reaping and the loop turn; with pid reuse
+    # (outside the rely condition) the old object swallows the new child's status
+    c.append(mk([["spawn", 5], ["reg", 0, 0], ["exit", 5, 0], ["chld"], ["reg", 0, 1], ["loop"], ["spawn", 5], ["exit", 5, 256], ["chld"], ["loop"], ["reg", 1, 2], ["loop"], ["chld"], ["loop"]]))
+    # late wait_for_exit with raise_error on a failed child, late plain callback, two late registrations in one turn
+    c.append(mk([["spawn", 5], ["reg", 0, 0], ["exit", 5, 9], ["chld"], ["loop"], ["wait", 0, 1, True], ["reg", 0, 2], ["wait", 0, 3, False], ["loop"], ["wait", 0, 4, True]]))
     c.append({"real": [{"how": "exit", "code": 3, "when": "before", "kind": "plain"}, {"how": "sig", "code": 9, "when": "after", "kind": "wait_raise"}]})
     return c
 
@@ -789,7 +802,8 @@ LEVEL_TEXT = ("Machine-checked (Coq) proof, for every event trace (child exits w
               "IOLoop turns, any number of children, any interleaving) in which the pids are distinct, that each Subprocess object of the model of "
               "tornado/process.py behaves exactly like a one-child specification automaton (non-interference through the shared _waiting dict, kernel table, "
               "IOLoop queue); consequently a callback runs at most once per object, only with decode(status of the child's first exit) (exit code, or minus the "
-              "signal number), and exactly once as soon as registration and exit (in either order) are followed by a SIGCHLD and a loop turn; "
+              "signal number), no registration fires twice, the callback in place fires as soon as registration and exit (in either order) are followed by a SIGCHLD and a loop turn, "
+              "and a registration made after the report fires at the next loop turn; "
               "wait_for_exit's future gets the status or CalledProcessError(status) iff raise_error and status != 0; no KeyError / InvalidStateError path is reachable. "
               "The model is compared with the real class on scripted traces (exhaustive up to a length bound) and on real child processes.")
 LEVEL_NOTE = ("Trusted: Coq kernel/vm_compute; the hand-written model; the scripted child table standing for os.waitpid (validated against real children on sampled statuses/signals); "
